@@ -425,6 +425,19 @@ class Graph(object):
                                 msg = str(a0.value)[:60]
                             elif isinstance(a0, ast.Name):
                                 msg = '<%s>' % a0.id
+                                # a message kept in a local: the literal start of the first text bound to it names the refusal
+                                firsts = [st.value for st in ast.walk(f.node) if isinstance(st, ast.Assign) and len(st.targets) == 1
+                                          and path_of(st.targets[0]) == a0.id]
+                                if firsts:
+                                    b0 = firsts[0]
+                                    while isinstance(b0, ast.BinOp):
+                                        b0 = b0.left
+                                    if isinstance(b0, ast.Call) and isinstance(b0.func, ast.Attribute) and b0.func.attr == 'format':
+                                        b0 = b0.func.value
+                                    if isinstance(b0, ast.JoinedStr) and b0.values and isinstance(b0.values[0], ast.Constant):
+                                        b0 = b0.values[0]
+                                    if isinstance(b0, ast.Constant) and isinstance(b0.value, str) and len({ast.dump(x) for x in firsts}) == 1:
+                                        msg = str(b0.value)[:60]
                         o.add((cls, '%s raise %s(%s)' % (k, cls, msg), '%s:%d' % (f.node._mod.relpath, n.lineno)))
                 elif isinstance(n, ast.Assert):
                     if not self.is_caught('AssertionError', self.caught_at(f.node, n)):
